@@ -328,7 +328,11 @@ func (f *focusHandler) childHasFocus(s Surface) bool {
 		if !f.childHasFocus(c.Surface) {
 			continue
 		}
-		f.path = append(f.path, s.Widget)
+		// A widget that nests surfaces of its own is one link of the
+		// path, not one per surface
+		if n := len(f.path); n == 0 || f.path[n-1] != s.Widget {
+			f.path = append(f.path, s.Widget)
+		}
 		return true
 	}
 
@@ -761,7 +765,11 @@ func hitTest(s Surface, hits []hitResult, col uint16, row uint16) []hitResult {
 		row: row,
 		w:   s.Widget,
 	}
-	hits = append(hits, r)
+	// A widget that nests surfaces of its own (a decoration around its
+	// content) is one link of the chain, not one per surface
+	if n := len(hits); n == 0 || hits[n-1].w != s.Widget {
+		hits = append(hits, r)
+	}
 
 	// Of the children containing the point only the one painted last (the
 	// highest z-index, the later one among equals) is under the pointer.
